@@ -21,6 +21,14 @@ def styleSetOf (base : List Style) (removed : List Str) (added : List Style) : L
     | some t => !removed.contains t
     | none => true) ++ added
 
+/-- decider of the hypothesis of `Props.C11.style_set_emptied` (`empties_decides`): every style of `base` carries a tag
+and that tag is among the removed ones.  Evaluated by the driver on the `remove` calls of every style-set case and
+compared with whether the real `StyleSet` object holds no style after them. -/
+def emptiesB (base : List Style) (removed : List Str) : Bool :=
+  base.all (fun s => match s.tag with
+    | some t => removed.contains t
+    | none => false)
+
 /-- the registry of a formatter built with `style_set`: `none` = the parameter omitted / `None` -/
 def formatterRegistry : Option (List Style) → Except Err Registry
   | none => defaultRegistry
